@@ -153,8 +153,11 @@ Lemma alignValueSingle_preserved i w i' : good i -> alignValueSingle i w = Ok i'
 Proof.
   intros G H. unfold alignValueSingle in H. bind_ok H ns E. apply lift_ok in E.
   destruct (is_nil ns && isCanonicalInitial (ps i) w); [inversion H; subst; apply preserved_refl, G|].
-  destruct (str_eqb _ _); [inversion H; subst; apply preserved_refl, G|].
+  cbv zeta in H.
+  if_ok H BK; [inversion H; subst; apply preserved_refl, G|].
+  if_ok H EQ; [inversion H; subst; apply preserved_refl, G|].
   eapply replace_sbv in H; [apply H|exact G|].
+  match goal with |- blankb (if ?b then _ else _) = true => destruct b end; [reflexivity|].
   destruct (is_nil ns); [reflexivity|]. eapply alignmentToWidths_blank, E.
 Qed.
 
